@@ -311,6 +311,7 @@ func c05Scenario(c *choice.Ctx, rep *report.R, tcp bool, startQid int, nCalls, d
 		check()
 		// (deadlines are C14's subject; with a stalled write the pipelined transport overruns them, see known findings)
 	}
+	selOff()
 	// wind down: cancel everything, close, drain
 	for ci := 0; ci < d.NumConns(); ci++ {
 		d.ImplEnd(ci).Commit()
